@@ -135,7 +135,7 @@ def generate_loop_bounds(iteration_space, iteration_order):
         reduced_polyhedron = eliminate_variable(reduced_polyhedron, idx)
         # Update index map after variable elimination
         index_map[var_idx] = None
-        index_map[var_idx+1:] = [i-1 for i in index_map[var_idx+1:]]
+        index_map[var_idx+1:] = [i-1 if i is not None else None for i in index_map[var_idx+1:]]
 
     # Build new iteration space polyhedron
     variables = [iteration_space.variables[i] for i in iteration_order]
